@@ -35,6 +35,7 @@
    a return or a panic; nested advances (delegation) are the same operator. *)
 EXTENDS Rec, RangeSem, FiniteSets
 
+NilDeref == "runtime error: invalid memory address or nil pointer dereference"
 MW0(table, tape, budget, flags) ==
   [store |-> <<>>, log |-> <<>>, tape |-> tape, budget |-> budget, panic |-> "", fuel |-> 400,
    cos |-> <<>>, table |-> table, flags |-> flags,
@@ -306,6 +307,11 @@ Run(i, w) ==
      ELSE LET r == IF IsNone(top.c) THEN [b |-> TRUE, w |-> w1]
                    \* `for cv() {`: the function VARIABLE is read at every evaluation of the condition
                    ELSE IF top.c.k = "cv" THEN (IF Get(w1, top.env, "cv") = 0 THEN ReadTape(w1, 90) ELSE [b |-> FALSE, w |-> w1])
+                   \* `for it.MoveNext() {`: a hand-written pull loop over the local iterator variable `it` (instance 2);
+                   \* when the variable holds no iterator (flag "nilit": `var it Iter[int]`) the call is a nil dereference,
+                   \* raised by the step that evaluates the condition -- not when the loop value is constructed
+                   ELSE IF top.c.k = "itn" THEN (IF "nilit" \in w1.flags THEN [b |-> FALSE, w |-> [w1 EXCEPT !.panic = NilDeref]]
+                                                 ELSE LET ar == Adv(2, w1) IN [b |-> ar.ok, w |-> ar.w])
                    ELSE ReadTape(w1, top.c.id) IN
        IF Panicked(r.w) THEN [st |-> "panic", w |-> r.w]
        ELSE IF r.b THEN Run(i, SetK(r.w, i, <<[t |-> "seq", ss |-> top.body \o <<EndBody>>, env |-> top.env]>> \o c.k))
